@@ -125,7 +125,9 @@ class SequenceIterator(types.Recoverable, Iterator[_T]):
 
   @property
   def state(self) -> ShardConfig:
-    start_index = self._index - self.config.start
+    # `config.start` already includes the offset the config was restored with.
+    offset = self.config.state.start_index
+    start_index = self._index - self.config.start + offset
     return dc.replace(self.config.state, start_index=start_index)
 
   def __next__(self) -> _T:
